@@ -8,6 +8,6 @@ CONSTANTS
   RecMax = 9
   MaxRecNodes = 1
   EmitCases = TRUE
-  DesignMax = 9
+  DesignMax = 3
 INVARIANTS DefinitionOK LTCorrect Emit
 CHECK_DEADLOCK FALSE
